@@ -59,12 +59,19 @@ def scenario(tier, G=2, lean=False):
                     if e.action != "failed":
                         summary.setdefault(rec.path, {}).setdefault(e.fmt, e.digest)
             b.note("gen%d %s %s" % (g, mode, fmts))
+        if sym.flag("other_history_flattened_to_same_destination_before"):
+            b.mkfile("S/notes.txt", 30)
+            b.mkfile("S/x.mov", 31)
+            r = b.run("create", root="S", h=["md5"], i=["*.txt"])
+            b.require(r.exit == 0, "setup-create", str(r))
+            r = b.run("flatten", root="S", dest="OUT")
+            b.require(r.exit == 0, "setup-flatten", str(r))
         before = b.snapshot("R")
         r = b.run("flatten", root="R", dest="OUT")
         b.require(r.exit == 0 and r.exc is None, "flatten-exit-0", str(r))
         after = b.snapshot("R")
         b.require(sorted(before) == sorted(after) and all(truth(b.same_node(before[p], after[p])) for p in before), "source-untouched", "")
-        pls = [p for p in b.walk_files("OUT") if posixpath.basename(p).startswith("packinglist_") and p.endswith(".mhl")]
+        pls = [p for p in b.walk_files("OUT") if posixpath.basename(p).startswith("packinglist_R_") and p.endswith(".mhl")]
         b.require(len(pls) == 1, "one-packing-list", str(b.walk_files("OUT")))
         pl = b.read_manifest_at(pls[0])
         b.require(pl.process == "flatten", "process-flatten", repr(pl.process))
